@@ -17,6 +17,11 @@ for d in sorted(glob.glob(os.path.join(root, "seeded", "C*-*"))):
     if only and name not in only and name.split("-")[0] not in only:
         continue
     prop = name.split("-")[0]
+    meta = json.load(open(os.path.join(d, "meta.json")))
+    if meta.get("obsolete"):
+        results[name] = {"property": prop, "obsolete": meta["obsolete"]}
+        print(name, "obsolete (no longer breaks the property on the current tree)")
+        continue
     a = subprocess.run(["git", "-C", "/repo", "apply", os.path.join(d, "patch.diff")], capture_output=True, text=True)
     if a.returncode != 0:
         results[name] = {"property": prop, "error": "patch does not apply: " + a.stderr.strip()}
@@ -32,5 +37,5 @@ for d in sorted(glob.glob(os.path.join(root, "seeded", "C*-*"))):
                      "violation_lines": len(viol), "first_violations": sorted(set(re.sub(r".*#\s*", "", l) for l in viol))[:4]}
     print(name, "detected" if results[name]["detected"] else "MISSED", results[name]["first_violations"][:1])
 json.dump(results, open(rf, "w"), indent=1, sort_keys=True)
-missed = [k for k, v in results.items() if not v.get("detected")]
+missed = [k for k, v in results.items() if not v.get("detected") and not v.get("obsolete")]
 print("seeded changes:", len(results), "missed:", missed)
